@@ -1034,6 +1034,15 @@ class Interp:
         if k == 5:
             patch = lib.cJSON_CreateArray()
             lib.cJSONUtils_AddPatchToArray(patch, b"add", b"/added~0by~1patch", r2.ptr)
+            # a copy whose source exists and whose destination parent does not: must fail without touching the source
+            kids = lib.children(r1.ptr)
+            if kids and (lib.shim_type(r1.ptr) & 0xFF) == 64 and lib.shim_key(kids[0]):
+                op = lib.cJSON_CreateObject()
+                lib.cJSON_AddItemToObject(op, b"op", lib.cJSON_CreateString(b"copy"))
+                key0 = ctypes.string_at(lib.shim_key(kids[0]))
+                lib.cJSON_AddItemToObject(op, b"from", lib.cJSON_CreateString(b"/" + key0.replace(b"~", b"~0").replace(b"/", b"~1")))
+                lib.cJSON_AddItemToObject(op, b"path", lib.cJSON_CreateString(b"/no such parent/child"))
+                lib.cJSON_AddItemToArray(patch, op)
             lib.cJSONUtils_AddPatchToArray(patch, b"remove", b"/no such member", None)
             dup = lib.cJSON_Duplicate(r1.ptr, 1)
             lib.cJSONUtils_ApplyPatchesCaseSensitive(dup, patch)
